@@ -210,7 +210,7 @@ def check_case(case, ctx):
 
 def shards(tier):
     n = 16 if tier == 'quick' else 64
-    return [{'examples': 250 if tier == 'quick' else 1500} for _ in range(n)]
+    return [{'examples': 400 if tier == 'quick' else 3000} for _ in range(n)]
 
 
 def run_shard(spec, ctx):
